@@ -1,5 +1,5 @@
-import p_cards, p_eval, p_showdown, p_flop, p_scopes, p_sym, p_workers, p_notation, p_fmt
+import p_cards, p_eval, p_showdown, p_flop, p_scopes, p_sym, p_workers, p_notation, p_fmt, p_system
 
 CHECKS = {}
-for m in (p_cards, p_eval, p_showdown, p_flop, p_scopes, p_sym, p_workers, p_notation, p_fmt):
+for m in (p_cards, p_eval, p_showdown, p_flop, p_scopes, p_sym, p_workers, p_notation, p_fmt, p_system):
     CHECKS.update(m.CHECKS)
